@@ -212,6 +212,20 @@ def floatValOK (fc : FloatConv) (v : Val) : Bool :=
   | none => false
   | some u => u.contains '.' && floatFilter fc u == some ⟨v, u.length, none⟩
 
+/-- `rest` goes on with `.` and a digit: what the optional group `(\.\d+)?` would take -/
+def dotDigit : Str → Bool
+  | c :: d :: _ => c == '.' && isDecDigit d
+  | _ => false
+
+/-- the side condition of a `float` wildcard in front of the URL `rest'` built for the rest of the
+rule: the formatted text is read back by the handler, whole, as the same value, and — when it has
+no decimal point (values from 1e16) — `rest'` does not go on with `.` and a digit.  Implied by
+`floatValOK`. -/
+def floatSide (fc : FloatConv) (v : Val) (rest' : Str) : Bool :=
+  match floatFmt v with
+  | none => false
+  | some u => floatFilter fc u == some ⟨v, u.length, none⟩ && (u.contains '.' || !dotDigit rest')
+
 def startsWithTok : List Sym → Bool
   | .tok _ :: _ => true
   | _ => false
@@ -244,12 +258,12 @@ def tokSide (fc : FloatConv) (f : Option Fid) (p' : List Sym) (v : Val) (rest' :
   | none => true
   | some g =>
     if isIntFid g then true
-    else if isFloatFid g then floatValOK fc v
+    else if isFloatFid g then floatSide fc v rest'
     else if isPathFid g then !laterLit (litRun p') rest'
     else true
 
 /-- the side conditions of all wildcards of a rule for the matched values `vs`: every `float`
-value is `floatValOK`; after no `path` wildcard does the literal it looks ahead for stand again
+value meets `floatSide`; after no `path` wildcard does the literal it looks ahead for stand again
 (`laterLit`) in the URL built for the rest of the rule -/
 def sideOK (fc : FloatConv) (env : FilterEnv) (fenv : FormatEnv) : List Sym → List Val → Bool
   | [], _ => true
